@@ -2,7 +2,7 @@
 """Demonstrates that the trace specifications are bound to what the implementation logged: one recorded field of an
 otherwise accepted trace is corrupted and the trace specification must reject exactly that trace line.
 
-Uses the traces the quick checks leave under .work/ (run ./check C17, C14, C15, C13 first).  Diagnostic, not a
+Uses the traces the quick checks leave under .work/ (run ./check C17, C07, C14, C15, C13, C01 first).  Diagnostic, not a
 registered check.  Prints one line per demonstration and exits non-zero if a corrupted trace was accepted.
 """
 import json, os, subprocess, sys, tempfile
@@ -96,12 +96,34 @@ def c_locals(c):
     return False
 
 
+def c_namemap(c):
+    for e in c["events"]:
+        if e["op"] == "emit" and e["out"]["names"]:
+            e["out"]["names"][0][2] += "~"      # an emitted name
+            return True
+    return False
+
+
+def c_exec(c):
+    # the body of the first called function of the *output* program traps instead
+    if not c.get("calls") or c.get("outcome") != "ok":
+        return False
+    name = c["calls"][0]["name"]
+    ex = [e for e in c["outp"]["exports"] if e["kind"] == "func" and e["name"] == name]
+    if not ex or c["outp"]["funcs"][ex[0]["idx"]]["imported"]:
+        return False
+    c["outp"]["funcs"][ex[0]["idx"]]["body"] = [{"o": "Unreachable"}]
+    return True
+
+
 W = os.path.join(ROOT, ".work")
 ok = all([
     demo("Trace_Arena (C17)", "Trace_Arena.tla", "Trace_Arena_plain.cfg", os.path.join(W, "C17", "arena.ndjson.plain.0"), c_arena),
     demo("Trace_Types (C07)", "Trace_Types.tla", "Trace_Types.cfg", os.path.join(W, "C07", "types.ndjson.0"), c_types, prop="C07"),
     demo("Trace_Producers (C14)", "Trace_Producers.tla", "Trace_Producers.cfg", os.path.join(W, "C14", "producers.ndjson"), c_producers),
     demo("Trace_Builder (C15)", "Trace_Builder.tla", "Trace_Builder.cfg", os.path.join(W, "C15", "builder.ndjson.0"), c_builder),
+    demo("Trace_NameMap (C13)", "Trace_NameMap.tla", "Trace_NameMap.cfg", os.path.join(W, "C13", "namemap.ndjson.0"), c_namemap),
+    demo("Exec (C01)", "Exec.tla", "Trace_Exec.cfg", os.path.join(W, "C01", "exec0.ndjson.0"), c_exec, workers=4),
     demo("Trace_Locals (C15)", "Trace_Locals.tla", "Trace_Locals.cfg", os.path.join(W, "C15", "locals.ndjson"), c_locals, prop="C15", workers=4),
 ])
 sys.exit(0 if ok else 1)
